@@ -8,13 +8,14 @@ from . import prog_common as PC
 from . import c01, c02, c03, c04
 
 ANCHORS = PC.ANCHORS
-WITNESSES = {'all': ['re-asked', 'exhausted-through-not', 'exhausted-and-with-tail', 'exhausted-with-cut', 'solve-after-no-more']}
+WITNESSES = {'all': ['re-asked', 'exhausted-through-not', 'exhausted-and-with-tail', 'exhausted-with-cut', 'solve-after-no-more', 'stop-flag-raised-and-lowered']}
 OPTS = {'quick': {'selfcheck_mod': 100, 'budget_s': 280}, 'thorough': {'selfcheck_mod': 1500, 'budget_s': 3000}}
 STEP_LIMIT = 1_500_000
 BOUNDS = {
     'quick': 'every 3rd program of the C01, C02, C03 and C04 families (conjunctions, disjunctions, cut, not, output goals): the search is run to its first "no more answers" (at most 8 '
              'answers), then next_solution is called three more times on the same query; every call must report none and write nothing; 21 programs with time(G) (whose elapsed-time output is the only thing checked: none after exhaustion); a sample is also driven through solve(): '
-             'after "No more." two further calls must return "No more."',
+             'after "No more." two further calls must return "No more."; for a fifth of the programs also: the stop flag is raised with stop_query() after 0-2 requests, '
+             'requests go on until one reports none, solve() (which lowers the flag) must say "No more." and two more requests must report none',
     'thorough': 'every program of those families',
 }
 OUTSIDE = 'queries with more than 8 answers (never exhausted within the bound)'
@@ -32,6 +33,9 @@ def cases(tier, seed):
             h = int(hashlib.sha1(('%s|%s|%d' % (fam, c['id'].split('|')[0], seed)).encode()).hexdigest()[:8], 16)
             if h % step == 0:
                 c = dict(c); c['src'] = fam; c['solve'] = (h // step) % 7 == 0; out.append(c)
+                if (h // step) % 5 == 1:
+                    # the stop flag goes up (stop_query(), what an expired timer does) after k answers and is lowered again by solve()
+                    d = dict(c); d['solve'] = False; d['stopflag'] = (h // 11) % 3; d['id'] = 'stop flag raised after %d requests: %s' % (d['stopflag'], c['id']); out.append(d)
     # time(G) writes the elapsed time when G has been run: it must stay quiet after exhaustion like everything else
     tm = lambda g: ('gtime', (g,))
     for body in (tm(gc('p', X)), tm(gb('fail')), AND(gc('p', X), tm(gc('q', X))), AND(tm(gc('nosuch', X)), gc('p', X)), OR(tm(gb('fail')), gc('q', X)),
@@ -46,7 +50,7 @@ def cases(tier, seed):
 def run_time(drv, case):
     """no reference needed: run to the first None (at most 8 answers), then three more requests must give nothing and write nothing"""
     m = drv.m
-    cs = {'clauses': PC.untuple(case['clauses']), 'query': PC.untuple(case['query'])}
+    cs = {'clauses': PC.untuple(case['clauses']), 'query': PC.untuple(case['query']), 'concrete_data': case.get('concrete_data')}
     clauses, query = PC.program(m, cs)
     kb = P.build_kb(drv, clauses)
     try:
@@ -61,10 +65,48 @@ def run_time(drv, case):
     return {'tags': ['re-asked', 'time-goal'], 'note': case['id']}
 
 
+def run_stopflag(drv, case):
+    """requests while the stop flag is up may end the search early; but once a request has reported none, none is final - also after
+    the flag has been lowered again"""
+    m = drv.m
+    cs = {'clauses': PC.untuple(case['clauses']), 'query': PC.untuple(case['query']), 'concrete_data': case.get('concrete_data')}
+    clauses, query = PC.program(m, cs)
+    desc = case['id'].split('|')[0]
+    try:
+        ref = P.ref_search(m, clauses, query, 8)
+    except S.Outside:
+        return {'tags': ['outside-claim'], 'nontrivial': False}
+    if not ref[2]: return {'tags': ['not-exhausted-within-bound'], 'nontrivial': False}
+    kb = P.build_kb(drv, clauses)
+    try:
+        q = drv.query([drv.term(t) for t in query[1]])
+        node = drv.base(q, kb)
+        ended = False
+        for i in range(case['stopflag']):
+            if drv.next(node).h is None: ended = True; break
+        drv.stop()
+        if not ended:
+            for i in range(10):
+                if drv.next(node).h is None: ended = True; break
+        if not ended: return {'tags': ['not-exhausted-within-bound'], 'nontrivial': False}
+        s = drv.solve(node)          # lowers the flag (start_query_timer) and asks again
+        if s != 'No more.' or drv.outs[-1]:
+            raise Violation('answers-after-exhaustion:stop-flag', '%s: after a request reported none, solve() returns %r and writes %r' % (desc, s, drv.outs[-1]))
+        for k in range(2):
+            r = drv.next(node)
+            if r.h is not None or drv.outs[-1]:
+                raise Violation('answers-after-exhaustion:stop-flag', '%s: after a request reported none and the stop flag was lowered, request %d %s%s' % (
+                    desc, k + 1, 'gives an answer' if r.h is not None else 'gives none', (' and writes %r' % drv.outs[-1]) if drv.outs[-1] else ''))
+    except ScenarioEnd as e:
+        raise Violation('search-%s' % e.why[0], '%s: %s' % (desc, e.why[1][:200]))
+    return {'tags': ['stop-flag-raised-and-lowered'], 'note': desc}
+
+
 def run(drv, case):
     if case.get('fam') == 'time': return run_time(drv, case)
+    if case.get('stopflag') is not None: return run_stopflag(drv, case)
     m = drv.m
-    cs = {'clauses': PC.untuple(case['clauses']), 'query': PC.untuple(case['query'])}
+    cs = {'clauses': PC.untuple(case['clauses']), 'query': PC.untuple(case['query']), 'concrete_data': case.get('concrete_data')}
     clauses, query = PC.program(m, cs)
     desc = '%s  ?- %s' % (' '.join(P.ctext(c) for c in cs['clauses']), P.ttext(cs['query']))
     try:
